@@ -455,11 +455,21 @@ func valueAt(l *Loaded, res *resolver, fi *FuncInfo, use ast.Expr, assume func(s
 	}
 	se.obj = obj
 	start := symUndef
+	// the function body the variable lives in: the declaration's, or that of the innermost
+	// function literal that contains its declaration
+	body := fi.Decl.Body
+	bodyStart := fi.Decl.Body.Pos()
+	ast.Inspect(fi.Decl.Body, func(n ast.Node) bool {
+		if lit, ok := n.(*ast.FuncLit); ok && lit.Pos() <= obj.Pos() && obj.Pos() < lit.End() {
+			body, bodyStart = lit.Body, lit.Body.Pos()
+		}
+		return true
+	})
 	// parameters and receivers hold their own name on entry
-	if obj.Pos() < fi.Decl.Body.Pos() {
+	if obj.Pos() < bodyStart {
 		start = symVal{s: res.nameOf(obj)}
 	}
-	se.walk(fi.Decl.Body.List, start)
+	se.walk(body.List, start)
 	if !se.found {
 		return symUnknown
 	}
